@@ -41,6 +41,12 @@ Check (C12_kinds_and_keys_independent : forall c t h tnow s,
 Print Assumptions C12_kinds_and_keys_independent.
 Check (C12_by_key_only_refuted : exists c h, by_kind c = false /\ snd (run c init h) <> spec_outs c h).
 Print Assumptions C12_by_key_only_refuted.
+Check (C12_inflight_update_then_observed_kept : forall c t pre mid v mid2,
+  present (snd (tfinal c t 0 tinit (pre ++ [Register (fst t) (snd t)] ++ mid))) = true ->
+  quiet t mid2 = true ->
+  exists vs, last (trun c t 0 tinit (((pre ++ [Register (fst t) (snd t)] ++ mid) ++ [Complete (fst t) (snd t) v]) ++ mid2 ++ [obs t])) OUnit
+             = OKept (N.of_nat (length (v :: vs))) (view (fst t) (v :: vs))).
+Print Assumptions C12_inflight_update_then_observed_kept.
 Check (C12_prom_spec_ok_on_model : forall c, by_kind (fst c) = true ->
   ExecProm.spec_ok c (ExecProm.run_case c) = true).
 Print Assumptions C12_prom_spec_ok_on_model.
